@@ -362,6 +362,10 @@ def main(argv=None):
     for key in sorted(known_keys):
         if reproduced.get(key) or known_hits.get(key):
             print(f"KNOWN-FINDING: property={prop_id} {key} {findings[key]}")
+        else:
+            # a listed finding that neither its directed probe nor the search reproduced: the list (or the probe) is
+            # out of date - said aloud, so that it cannot go unnoticed (no effect on the exit code)
+            print(f"NOTE: listed finding not reproduced in this run: property={prop_id} {key}")
 
     # ---- generator health
     health_errors = []
